@@ -97,7 +97,8 @@ def foreign_activity(seed):
             sim.step({'fa': x})
             exp = ((x + i) if (x & 1) else i)
             if sim.inspect('fo') != exp:
-                raise HarnessError('foreign design misbehaves')
+                raise common.ForeignMismatch('fo=%r expected %r (a=%d cycle %d)'
+                                             % (sim.inspect('fo'), exp, x, i))
             vals.append(sim.inspect('fo'))
     if pyrtl.working_block() is not old:
         raise HarnessError('foreign activity changed the working block')
